@@ -184,10 +184,12 @@ Ltac evf :=
 
 Ltac solve_len :=
   repeat rewrite ?app_length, ?xorb_length, ?firstn_length, ?skipn_length, ?upd_nth_length, ?map_length,
-                 ?map2_length, ?repeat_length in *;
-  cbn [length] in *;
+                 ?map2_length, ?repeat_length;
+  cbn [length];
   repeat rewrite ?xor_upto_length, ?upto_length by (cbn [length]; lia);
-  cbn [length] in *; lia.
+  cbn [length]; unfold rd_out, xor_in2out, wr_out, cout; cbn [cout];
+  repeat rewrite ?app_length, ?xorb_length, ?firstn_length, ?skipn_length;
+  lia.
 
 (* evaluate, discharging the bound checks that become visible *)
 Ltac ev_checks :=
